@@ -25,6 +25,7 @@ PROP = {'streams': [('c17', 1000, 100000)],
               'full_statement_of_fragment',
               'manifest_sound_valid',
               'decision_sliced_valid',
+              'manifest_sound_valid_accepted',
               'typed_false_environment_breaks_slicing'],
  'assumptions': ['manifest_sound_partial / response_sliced_partial are PROVED ONLY FOR THE FRAGMENT `Cedar.Manifest.InFrag` (literals, variables, . and '
                  'has chains through records and entities, && || !, if (also producing entities/records that are then dereferenced), unary -, isEmpty, '
